@@ -52,6 +52,7 @@ type poolReader struct {
 	st      string // idle | run | got | gate | back
 	armed   bool
 	release chan struct{}
+	ticket  int // standard pool: the reader's get ticket (order of the get ops)
 }
 
 type poolRun struct {
@@ -62,6 +63,7 @@ type poolRun struct {
 	mu      sync.Mutex
 	readers []*poolReader
 	goids   map[int64]*poolReader
+	tickets int
 }
 
 var curPoolRun *poolRun
@@ -181,14 +183,46 @@ func (run *poolRun) snap() poolSnap {
 	return s
 }
 
-// settle waits for heartbeat rounds and then for a stable, explainable snapshot.
+// looksWedged: a reader sits in Cond.Wait although an event it could take is there — the state the
+// pool's heartbeat (or back's Broadcast) has to repair. Whether it persists is what the oracle judges, so
+// such a snapshot is accepted only after a long grace period (a delayed heartbeat goroutine on a loaded
+// machine must not look like a wedge).
+func (run *poolRun) looksWedged(s poolSnap) bool {
+	if s.cw == 0 || s.inUse >= run.cap {
+		return false
+	}
+	if run.kind != "std" {
+		return true
+	}
+	slots := strings.Split(s.slots, ",")
+	run.mu.Lock()
+	defer run.mu.Unlock()
+	for i, st := range s.sts {
+		if st == "gate" {
+			return false
+		}
+		if st == "run" {
+			x := run.readers[i].ticket % run.cap
+			if x < len(slots) && strings.HasPrefix(slots[x], "1") {
+				return true
+			}
+		}
+	}
+	return false
+}
+
+// settle waits for heartbeat rounds and then for a stable, explainable snapshot. Everything is a
+// condition with a generous deadline; a snapshot that could still be repaired by a late heartbeat is
+// given seconds, not milliseconds.
 func (run *poolRun) settle() (poolSnap, bool) {
 	if run.nohb {
 		time.Sleep(300 * time.Microsecond)
 	} else {
 		time.Sleep(3 * poolWakeup)
 	}
-	deadline := time.Now().Add(1500 * time.Millisecond)
+	start := time.Now()
+	deadline := start.Add(6 * time.Second)
+	grace := start.Add(3 * time.Second)
 	var prev poolSnap
 	stable := 0
 	for {
@@ -211,7 +245,7 @@ func (run *poolRun) settle() (poolSnap, bool) {
 			stable = 0
 		}
 		prev = s
-		if stable >= 4 {
+		if stable >= 4 && (!run.looksWedged(s) || time.Now().After(grace)) {
 			return s, true
 		}
 		if time.Now().After(deadline) {
@@ -295,6 +329,8 @@ func (run *poolRun) apply(op string) bool {
 			}
 		}
 		r.st = "run"
+		r.ticket = run.tickets
+		run.tickets++
 		r.armed = op[0] == 'G'
 		r.release = make(chan struct{})
 		run.mu.Unlock()
